@@ -703,7 +703,8 @@ func (d *deepView) fieldOrigin(v ssa.Value, fr *frame, depth int) string {
 		if !d.outerField {
 			return id
 		}
-		for k := 0; k < 6; k++ {
+		cfr := r.fr
+		for k := 0; k < 8; k++ {
 			x, ok := fa.(*ssa.FieldAddr)
 			if !ok {
 				break
@@ -713,7 +714,16 @@ func (d *deepView) fieldOrigin(v ssa.Value, fr *frame, depth int) string {
 				base = ld.X
 			}
 			if _, isFA := base.(*ssa.FieldAddr); !isFA {
-				break
+				// a receiver/parameter of a helper: what the caller passed
+				rb := d.resolve(x.X, cfr)
+				nb := rb.v
+				if ld, isLd := nb.(*ssa.UnOp); isLd && ld.Op == token.MUL {
+					nb = ld.X
+				}
+				if _, isFA2 := nb.(*ssa.FieldAddr); !isFA2 || rb.v == x.X && rb.fr == cfr {
+					break
+				}
+				base, cfr = nb, rb.fr
 			}
 			fa = base
 			id = ir.FieldID(fa)
